@@ -3,7 +3,7 @@ import os, random
 from tools import vlib, t3
 
 MODULE = "PropC01"
-THEOREMS = ["C01_code_conforms", "C01_order_facts", "C01_atomic", "C01_failed_leaves_nothing", "C01_confined", "C01_nonvacuous", "C01_window_atomic", "C01_window_failed_leaves_nothing", "C01_window_nonvacuous", "C01_returning_fail_refuted", "C01_cone_conforms"]
+THEOREMS = ["C01_code_conforms", "C01_order_facts", "C01_atomic", "C01_failed_leaves_nothing", "C01_confined", "C01_nonvacuous", "C01_window_atomic", "C01_window_failed_leaves_nothing", "C01_window_nonvacuous", "C01_returning_fail_refuted", "C01_cone_conforms", "C01_copying_finalize_refuted"]
 FAILKINDS = ["before", "partial", "afterfull", "omit", "signal"]
 
 
